@@ -932,6 +932,9 @@ Proof.
 Qed.
 
 (* ---- weight of the path between two real plaquettes = distance ---- *)
+Ltac pair_lia H :=
+  let F1 := fresh "F" in let F2 := fresh "F" in
+  pose proof (f_equal fst H) as F1; pose proof (f_equal snd H) as F2; cbn [fst snd] in F1, F2; lia.
 Lemma in_walk k : forall d cur s, In s (walk k d cur) ->
   exists j, 0 <= j < Z.of_nat k /\ s = (fst cur + (2 * j + 1) * fst d, snd cur + (2 * j + 1) * snd d).
 Proof.
@@ -943,7 +946,7 @@ Lemma NoDup_walk k : forall d cur, dir d -> NoDup (walk k d cur).
 Proof.
   induction k as [|k IH]; intros d cur Hd; cbn [walk]; constructor; [|now apply IH].
   intros Hin. apply in_walk in Hin. destruct Hin as (j & Hj & Heq). cbn [fst snd] in Heq.
-  destruct Hd as [-> | [-> | [-> | ->]]]; cbn [fst snd] in Heq; injection Heq; lia.
+  destruct Hd as [-> | [-> | [-> | ->]]]; cbn [fst snd] in Heq; pair_lia Heq.
 Qed.
 Lemma NoDup_app_disj {A} (l1 l2 : list A) : NoDup l1 -> NoDup l2 -> (forall x, In x l1 -> In x l2 -> False) -> NoDup (l1 ++ l2).
 Proof.
@@ -967,13 +970,13 @@ Proof.
   split.
   - repeat apply NoDup_app_disj; auto using NoDup_walk.
     + intros x H1 H2. apply in_walk in H1, H2. destruct H1 as (j1 & Hj1 & ->), H2 as (j2 & Hj2 & Heq).
-      cbn [fst snd] in Heq. injection Heq. lia.
+      cbn [fst snd] in Heq. pair_lia Heq.
     + intros x H1 H2. apply in_app_iff in H2. destruct H2 as [H2|H2];
         apply in_walk in H1, H2; destruct H1 as (j1 & Hj1 & ->), H2 as (j2 & Hj2 & Heq);
-        cbn [fst snd] in Heq; injection Heq; lia.
+        cbn [fst snd] in Heq; pair_lia Heq.
     + intros x H1 H2. apply in_app_iff in H2. destruct H2 as [H2|H2]; [|apply in_app_iff in H2; destruct H2 as [H2|H2]];
         apply in_walk in H1, H2; destruct H1 as (j1 & Hj1 & ->), H2 as (j2 & Hj2 & Heq);
-        cbn [fst snd] in Heq; injection Heq; lia.
+        cbn [fst snd] in Heq; pair_lia Heq.
   - intros s Hs. rewrite inb_unfold.
     apply in_app_iff in Hs. destruct Hs as [Hs|Hs]; [|apply in_app_iff in Hs; destruct Hs as [Hs|Hs];
       [|apply in_app_iff in Hs; destruct Hs as [Hs|Hs]]];
@@ -997,4 +1000,63 @@ Proof.
   change (p_to_bsf (sites rows cols (path_op a) (path_sites a rs cs) (new_pauli rows cols)))
     with (sop (path_op a) (path_sites a rs cs)).
   rewrite sop_weight_nodup; auto using path_op_not_I, path_sites_sites. apply path_sites_length.
+Qed.
+
+(* C07: flatten is a bijection from the in-bounds sites onto [0, n), with inverse [unflatten] *)
+Theorem planar_flatten_bijective_all :
+  (forall i, isite i -> 0 <= planar_flatten rows cols i < Z.of_nat (planar_n rows cols)) /\
+  (forall i j, isite i -> isite j -> planar_flatten rows cols i = planar_flatten rows cols j -> i = j) /\
+  (forall k, 0 <= k < Z.of_nat (planar_n rows cols) -> isite (unflatten k) /\ planar_flatten rows cols (unflatten k) = k).
+Proof.
+  split; [exact planar_flatten_range|]. split; [exact planar_flatten_injective|exact planar_flatten_surjective].
+Qed.
+(* ... hence site access round-trips: the letter read at site i after site(op, i) on the identity is op, and I elsewhere *)
+Theorem planar_site_operator_roundtrip op i j : isite i -> isite j ->
+  operator rows cols j (site rows cols op i (new_pauli rows cols)) = Some (if zeqb2 i j then op else pI).
+Proof.
+  intros [Hi1 Hi2] [Hj1 Hj2]. unfold operator, site. rewrite Hj1, Hj2, Hi2. cbn [andb]. f_equal.
+  unfold op_at, flip_op, new_pauli, pzero. cbn [pxs pzs].
+  pose proof (fl_lt i Hi1 Hi2) as Li. unfold fl in Li.
+  assert (Hn : forall b : bool, nth (Z.to_nat (planar_flatten rows cols j))
+             (if b then flipn (Z.to_nat (planar_flatten rows cols i)) (zeros N) else zeros N) false = (b && zeqb2 i j)).
+  { intros [|]; [|now rewrite nth_zeros]. rewrite nth_flipn by now rewrite zeros_length. rewrite nth_zeros, xorb_false_r.
+    destruct (zeqb2 i j) eqn:E.
+    - apply zeqb2_eq in E. subst j. apply Nat.eqb_refl.
+    - apply Nat.eqb_neq. intros Hf. assert (j = i) by (apply fl_inj; [split; auto|split; auto|exact Hf]).
+      subst j. rewrite zeqb2_refl in E. discriminate. }
+  rewrite !Hn. destruct op, (zeqb2 i j); reflexivity.
+Qed.
+End PlanarAll.
+
+(* ================================================================== *)
+(** * Statements not proved for all sizes (visible, not claimed)        *)
+(* ================================================================== *)
+(* independence of the stabilizer generators: no non-empty selection of rows multiplies to the identity
+   (established for sizes <= 16x16 by the harness' GF(2) rank computation on the implementation's matrices) *)
+Definition planar_rank_statement : Prop :=
+  forall rows cols, 2 <= rows -> 2 <= cols ->
+  forall sel : bsf, length sel = length (stabs (planar_code rows cols)) ->
+    xsum (planar_n rows cols + planar_n rows cols) (select sel (stabs (planar_code rows cols)))
+      = zeros (planar_n rows cols + planar_n rows cols) ->
+    forall b, In b sel -> b = false.
+(* C08 lower bound: every operator that commutes with all stabilizers and is not a product of stabilizers has
+   weight >= min(rows, cols)  (decided exhaustively for small sizes by harness/lat_planar.py check_c08) *)
+Definition planar_distance_lower_statement : Prop :=
+  forall rows cols, 2 <= rows -> 2 <= cols ->
+  forall e : bsf, length e = (planar_n rows cols + planar_n rows cols)%nat ->
+    (forall s, In s (stabs (planar_code rows cols)) -> bsp e s = false) ->
+    (forall sel, xsum (planar_n rows cols + planar_n rows cols) (select sel (stabs (planar_code rows cols))) <> e) ->
+    Z.min rows cols <= Z.of_nat (bsf_wt e).
+(* the proved part of C08 for all sizes is [planar_distance_upper] together with
+   [planar_logical_x_nontrivial] / [planar_logical_z_nontrivial]: d is attained by a supplied non-trivial logical *)
+Definition planar_distance_partial := planar_distance_upper.
+
+(* non-vacuity: the all-sizes theorems instantiated at a non-square size *)
+Example planar_valid_all_3x5 : validate (planar_code 3 5) = VOk.
+Proof. apply planar_valid_all; lia. Qed.
+Example planar_path_syndrome_all_4x3 : exists p, path 4 3 (1, 0) (7, 2) (new_pauli 4 3) = Some p /\
+  syndrome_of (stabs (planar_code 4 3)) (p_to_bsf p) =
+  map (fun q => xorb (zeqb2 q (1, 0)) (zeqb2 q (7, 2))) (plaquette_indices 4 3).
+Proof.
+  apply planar_path_syndrome_all; try lia; unfold ptype, same_type, instrip; cbn [fst snd]; lia.
 Qed.
